@@ -3,6 +3,7 @@
    op:  (node <kv>...)            so_q_insert_node h l        = QueryBuilder::insert().nodes().values([l])
         (values <id> <kv>...)     so_q_insert_values h id l   = QueryBuilder::insert().values([l]).ids(id)      (id: signed hex)
         (edge <from> <to>)        so_q_insert_edge h from to  = QueryBuilder::insert().edges().from(from).to(to)
+        (remove <id>)             so_q_remove h id            = QueryBuilder::remove().ids(id)   (an edge, or a node without edges and alias)
    key-value pairs and database values in the text form of m_db.ml / m_coll.ml: (kv <k> <v>).
    The file bytes are the image of a REAL, closed database file.  The extracted model of storage.rs opens the image the way
    FileStorage::new does (Storage.with_data on the byte store: version record, record table, free lists), the program
@@ -41,6 +42,9 @@ let handle (cmd : string) (args : sexp list) : string =
            | L (A "values" :: id :: l) ->
              let l = List.map M_coll.dbkv_of l in
              let (s1, r) = cp_run step (cbind (so_open root1) (fun h -> so_q_insert_values h (zh_of id) l)) s0 in
+             (s1, str_res (fun _ -> "u") r)
+           | L [A "remove"; id] ->
+             let (s1, r) = cp_run step (cbind (so_open root1) (fun h -> so_q_remove h (zh_of id))) s0 in
              (s1, str_res (fun _ -> "u") r)
            | L [A "edge"; f; t] ->
              let (s1, r) = cp_run step (cbind (so_open root1) (fun h -> so_q_insert_edge h (zh_of f) (zh_of t))) s0 in
